@@ -77,6 +77,17 @@ func genScenario(mode string, seed int64) Scenario {
 		s.MaxMsgTmo = s.MsgTimeout * 3
 		s.OutBufSize = []int{0, 64, 16384}[r.Intn(3)]
 		s.OutBufTmo = []int{0, 25, 100}[r.Intn(3)]
+	case "timing":
+		// one channel shared by deferred, requeued and timed-out messages with assorted deadlines (heap order),
+		// TOUCH patterns that run into max-msg-timeout, REQ delays beyond max-req-timeout
+		s.Topics = s.Topics[:1]
+		s.Channels[s.Topics[0]] = s.Channels[s.Topics[0]][:1]
+		s.ConsPerChan = 2 + r.Intn(2)
+		s.MemQ = []int64{0, 5, 1000}[r.Intn(3)]
+		s.MsgTimeout = []time.Duration{120 * time.Millisecond, 200 * time.Millisecond}[r.Intn(2)]
+		s.MaxMsgTmo = s.MsgTimeout*2 + time.Duration(r.Intn(100))*time.Millisecond
+		s.MaxReqTmo = time.Duration(150+r.Intn(150)) * time.Millisecond
+		s.NMsg = 10 + r.Intn(12)
 	case "bytes":
 		s.BodyMax = []int{300, 20000, 70000}[r.Intn(3)]
 		s.NMsg = 4 + r.Intn(5)
@@ -92,12 +103,12 @@ func genScenario(mode string, seed int64) Scenario {
 // ---- run state ----------------------------------------------------------
 
 type pubRec struct {
-	Key   string
-	Topic string
-	Body  []byte
-	Defer int // ms
-	Via   string
-	Acked bool
+	Key     string
+	Topic   string
+	Body    []byte
+	Defer   int // ms
+	Via     string
+	Acked   bool
 	SentSeq int64
 }
 
@@ -113,23 +124,25 @@ type consumer struct {
 }
 
 type Run struct {
-	sc      Scenario
-	nd      *Node
-	rng     *rand.Rand
-	mu      sync.Mutex
-	pubs    []*pubRec
-	byKey   map[string]*pubRec
-	connSeq int64
-	stop    int32 // consumers/publishers/admin pause their activity when 1
-	fails   []string
-	incon   string
-	lastEv  int64 // event counter (activity detection)
-	wg      sync.WaitGroup
-	cons    []*consumer
-	consMu  sync.Mutex
-	emptied map[string]bool // "topic/channel" emptied or deleted during the run
-	draining int32
-	exiting  int32 // graceful shutdown requested (restart mode): publishers and consumers lose their connections
+	sc           Scenario
+	nd           *Node
+	rng          *rand.Rand
+	mu           sync.Mutex
+	pubs         []*pubRec
+	byKey        map[string]*pubRec
+	connSeq      int64
+	stop         int32 // consumers/publishers/admin pause their activity when 1
+	fails        []string
+	incon        string
+	lastEv       int64 // event counter (activity detection)
+	wg           sync.WaitGroup
+	cons         []*consumer
+	consMu       sync.Mutex
+	emptied      map[string]bool // "topic/channel" emptied or deleted during the run
+	draining     int32
+	worstLate    int64
+	timingChecks int
+	exiting      int32 // graceful shutdown requested (restart mode): publishers and consumers lose their connections
 }
 
 func (r *Run) failf(f string, a ...interface{}) {
@@ -213,12 +226,15 @@ func (r *Run) publisher(p int, seed int64, count int, startIdx int) {
 	for i < end && !cn.isClosed() {
 		topic := r.sc.Topics[rng.Intn(len(r.sc.Topics))]
 		kind := rng.Intn(10)
+		if r.sc.Mode == "timing" && rng.Intn(2) == 0 {
+			kind = []int{4, 7}[rng.Intn(2)] // DPUB or HTTP /pub (often with defer)
+		}
 		switch {
 		case kind < 4: // PUB
 			key, body := r.makeBody(rng, p, i)
 			rec := r.record(key, topic, body, 0, "PUB")
 			i++
-			hlib.Emit("HPub", "key", key, "via", "PUB", "t", topic)
+			hlib.Emit("HPub", "key", key, "via", "PUB", "t", topic, "defer", 0, "now", time.Now().UnixNano())
 			cn.send("PUB "+topic+"\n", lenPrefixed(body))
 			r.ack(cn, []*pubRec{rec})
 		case kind < 5: // DPUB
@@ -226,7 +242,7 @@ func (r *Run) publisher(p int, seed int64, count int, startIdx int) {
 			d := 20 + rng.Intn(120)
 			rec := r.record(key, topic, body, d, "DPUB")
 			i++
-			hlib.Emit("HPub", "key", key, "via", "DPUB", "t", topic)
+			hlib.Emit("HPub", "key", key, "via", "DPUB", "t", topic, "defer", d, "now", time.Now().UnixNano())
 			cn.send(fmt.Sprintf("DPUB %s %d\n", topic, d), lenPrefixed(body))
 			r.ack(cn, []*pubRec{rec})
 		case kind < 7: // MPUB
@@ -242,7 +258,7 @@ func (r *Run) publisher(p int, seed int64, count int, startIdx int) {
 				recs = append(recs, r.record(key, topic, body, 0, "MPUB"))
 				i++
 				buf.Write(lenPrefixed(body))
-				hlib.Emit("HPub", "key", key, "via", "MPUB", "t", topic)
+				hlib.Emit("HPub", "key", key, "via", "MPUB", "t", topic, "defer", 0, "now", time.Now().UnixNano())
 			}
 			cn.send("MPUB "+topic+"\n", lenPrefixed(buf.Bytes()))
 			r.ack(cn, recs)
@@ -256,7 +272,7 @@ func (r *Run) publisher(p int, seed int64, count int, startIdx int) {
 			}
 			rec := r.record(key, topic, body, d, "HTTP")
 			i++
-			hlib.Emit("HPub", "key", key, "via", "HTTP", "t", topic)
+			hlib.Emit("HPub", "key", key, "via", "HTTP", "t", topic, "defer", d, "now", time.Now().UnixNano())
 			st, _, err := r.nd.post(path, body)
 			if err == nil && st == 200 {
 				r.markAcked([]*pubRec{rec})
@@ -279,7 +295,7 @@ func (r *Run) publisher(p int, seed int64, count int, startIdx int) {
 				}
 				recs = append(recs, r.record(key, topic, body, 0, "HMPUB"))
 				i++
-				hlib.Emit("HPub", "key", key, "via", "HMPUB", "t", topic)
+				hlib.Emit("HPub", "key", key, "via", "HMPUB", "t", topic, "defer", 0, "now", time.Now().UnixNano())
 				if binaryMode {
 					buf.Write(lenPrefixed(body))
 				} else {
@@ -377,11 +393,12 @@ func (r *Run) newConsumer(topic, channel string, person int, rdy int64) (*consum
 }
 
 // consumerLoop: personality-driven behaviour until the run is stopped.
-//  0 prompt: FIN everything
-//  1 mixed: FIN / REQ 0 / REQ d / TOUCH+FIN / ignore
-//  2 slow: answers late (after the timeout may have passed), sometimes twice
-//  3 flaky: like 1 but disconnects abruptly now and then (a replacement connects)
-//  4 rdy-juggler: changes RDY up and down, CLS at some point
+//
+//	0 prompt: FIN everything
+//	1 mixed: FIN / REQ 0 / REQ d / TOUCH+FIN / ignore
+//	2 slow: answers late (after the timeout may have passed), sometimes twice
+//	3 flaky: like 1 but disconnects abruptly now and then (a replacement connects)
+//	4 rdy-juggler: changes RDY up and down, CLS at some point
 func (r *Run) consumerLoop(c *consumer, seed int64) {
 	defer r.wg.Done()
 	rng := rand.New(rand.NewSource(seed))
@@ -433,7 +450,7 @@ func (r *Run) onMessage(c *consumer, rng *rand.Rand, f Frame) {
 		if c.person == 3 && rng.Intn(12) == 0 {
 			c.cn.close()
 		}
-	case 2:
+	case 2, 5:
 		// answer later (idleAction)
 	}
 }
@@ -443,6 +460,25 @@ func (r *Run) idleAction(c *consumer, rng *rand.Rand) {
 		for id := range c.held {
 			c.cn.cmd("FIN", id, "")
 			delete(c.held, id)
+		}
+		return
+	}
+	if c.person == 5 && len(c.held) > 0 {
+		for id, since := range c.held {
+			age := time.Since(since)
+			switch {
+			case age > r.sc.MaxMsgTmo+r.sc.MsgTimeout:
+				delete(c.held, id) // the cap has expired it by now: it will come back
+			case rng.Intn(3) == 0:
+				c.cn.cmd("TOUCH", id, "")
+			case rng.Intn(12) == 0:
+				c.cn.cmd("FIN", id, "")
+				delete(c.held, id)
+			case rng.Intn(12) == 0:
+				c.cn.cmd("REQ", id, strconv.Itoa(rng.Intn(600)))
+				delete(c.held, id)
+			}
+			break
 		}
 		return
 	}
